@@ -109,7 +109,10 @@ def run(run_, tier):
     solv_model.projection_solvers(run_, it2, "C04")
     symla_systems.c04_obligations(run_, tier)
     # the sub-step equations use the derivative functions: the schemes are symplectic only if these are the gradients of one function each (C05)
-    symla_systems.run_cases(run_, "c05_cases", keep=lambda oid: any(k in oid for k in ("dh1_dpos-is-gradient-of-h1", "dh2_dmom-is-gradient-of-h2", "dh2_dpos-is-gradient-of-h2")))
+    symla_systems.run_cases(run_, "c05_cases", keep=lambda oid: any(k in oid for k in (
+        "dh1_dpos-is-gradient-of-h1", "dh2_dmom-is-gradient-of-h2", "dh2_dpos-is-gradient-of-h2",
+        # the implicit midpoint map is symplectic because it is the midpoint rule of a HAMILTONIAN vector field: (dh_dmom, -dh_dpos) must be the gradient of h
+        "dh_dpos-is-gradient-of-h", "dh_dmom-is-gradient-of-h", "dh1_dpos-stable-under-repeated-evaluation", "grad-cache-not-corrupted")))
     # ... incl. the SoftAbs metric class (gradient contracts of C11) and the state cache the derivative functions are reached through (C09)
     from . import premises
     premises.softabs_gradients(run_)
